@@ -204,6 +204,8 @@ type BlockOpt struct {
 	CoinbaseScript       []byte
 	// ExtraCoinbaseOuts are appended after the default paying output.
 	ExtraCoinbaseOuts []*wire.TxOut
+	// PayScript overrides the script of the default coinbase output.
+	PayScript []byte
 	// ForceCommitment adds a witness commitment even without witness data.
 	ForceCommitment bool
 	// NoCommitment suppresses the witness commitment.
@@ -490,7 +492,11 @@ func (t *Tree) Extend(parent *Node, opt BlockOpt) *Node {
 			// identical coinbases need identical outputs: claim the subsidy only
 			v = Subsidy(height, p) + opt.CoinbaseValueDelta
 		}
-		cb.AddTxOut(&wire.TxOut{Value: v, PkScript: OpTrue})
+		ps := OpTrue
+		if opt.PayScript != nil {
+			ps = opt.PayScript
+		}
+		cb.AddTxOut(&wire.TxOut{Value: v, PkScript: ps})
 	}
 	for _, o := range opt.ExtraCoinbaseOuts {
 		cb.AddTxOut(o)
